@@ -26,14 +26,14 @@ REQUIRED = {
     "huber_values": 200, "masked_perturbations": 20, "avgl1_vectors": 50,
     "schedules": 30,
 }
-TIMEOUT = {"quick": 600, "thorough": 2400}
+TIMEOUT = {"quick": 600, "thorough": 7000}
 ASSUMPTIONS = ["float32 results are compared with float64 references within "
                "stated relative tolerances (2e-5 unless noted)"]
 
 
 def gen_cases(tier, seed):
     rng = np.random.default_rng(seed + 1818)
-    k = 1 if tier == "quick" else 12
+    k = 1 if tier == "quick" else 50
     cases = []
     ranges = [(-10, 10), (-12, 12), (-5, 5), (0, 5), (-3, 8), (-1, 1), (-0.1, 0.1),
               (-19, 19), (-20, 20), (-3, 20), (-20, 2)]
